@@ -238,7 +238,9 @@ def run(idx: ProgramIndex, rep: Report, tier: str):
             for st, env in seq:
                 if not isinstance(st, ast.stmt):
                     continue
-                for c in (x for x in ast.walk(st) if isinstance(x, ast.Call)):
+                from ..symbolic import expand_hook as _eh
+                for c0 in (x for x in ast.walk(st) if isinstance(x, ast.Call)):
+                    c = _eh(M, c0) if sn == "self" else c0
                     kw = {k.arg: k.value for k in c.keywords}
                     if src(c.func) in ("%s.__class__" % sn, "MultivariateNormal", "type(%s)" % sn):
                         me, ce = _ctor_args(c)
